@@ -482,3 +482,25 @@ def pda_step(P, a, R):
                 st1 = st1 + (v,)
             out.add((r, st1))
     return out
+
+
+def subset_name_collision(N):
+    """two DISTINCT reachable subsets of the subset construction whose sorted set notation {a,b,...} is the same text
+    (only possible when a state name is empty or contains ',' '{' '}'), or None"""
+    start = frozenset(eps_reach(N, {N.q0}))
+    seen, todo, names = {start}, [start], {}
+    while todo:
+        S = todo.pop()
+        nm = '{' + ','.join(sorted(S)) + '}'
+        if nm in names and names[nm] != S:
+            return sorted(map(sorted, (names[nm], S)))
+        names[nm] = S
+        for a in N.Sigma:
+            T = set()
+            for q in S:
+                T |= set(nfa_succ(N, q, a))
+            T = frozenset(eps_reach(N, T))
+            if T not in seen:
+                seen.add(T)
+                todo.append(T)
+    return None
